@@ -1,0 +1,35 @@
+//go:build verif
+// +build verif
+
+package runtime
+
+import (
+	"reflect"
+	"unsafe"
+)
+
+// VerifTypeLink is one entry of the sample AnalyzeTypeAddr looks at.
+type VerifTypeLink struct {
+	Addr  uintptr
+	IsPtr bool
+	Elem  uintptr
+}
+
+// VerifTypeLinks returns the sample in the order AnalyzeTypeAddr visits it.
+func VerifTypeLinks() (int, []VerifTypeLink) {
+	sections, offsets := typelinks()
+	if len(sections) != 1 || len(offsets) != 1 {
+		return len(sections), nil
+	}
+	var res []VerifTypeLink
+	for i := 0; i < len(offsets[0]); i++ {
+		typ := (*Type)(rtypeOff(sections[0], offsets[0][i]))
+		l := VerifTypeLink{Addr: uintptr(unsafe.Pointer(typ))}
+		if typ.Kind() == reflect.Ptr {
+			l.IsPtr = true
+			l.Elem = uintptr(unsafe.Pointer(typ.Elem()))
+		}
+		res = append(res, l)
+	}
+	return 1, res
+}
